@@ -90,3 +90,17 @@ double NewtonBacktrackOneDimension::doStep()
 }
 
 /******************************************************************************/
+
+double NewtonBacktrackOneDimension::optimize()
+{
+  AbstractOptimizer::optimize();
+  if (currentValue_ > fold_)
+  {
+    // No acceptable step found within the evaluation budget: do not move.
+    getParameter_(0).setValue(0);
+    currentValue_ = getFunction()->f(getParameters());
+  }
+  return currentValue_;
+}
+
+/******************************************************************************/
